@@ -97,6 +97,117 @@ class AW:
 }
 
 
+# prefix SCOPING: descendants re-bind prefixes (and the default namespace) that an ancestor binds to another uri; QName
+# values and xsi:type values before, inside and AFTER such subtrees use whatever binding is in scope there
+C08_EXTRA["scoped_qname"] = {
+    "src": '''
+@dataclass
+class Entry:
+    class Meta:
+        name = "entry"
+        namespace = "urn:m"
+    kind: Optional[QName] = field(default=None, metadata={"type": "Attribute"})
+    ref: list[QName] = field(default_factory=list, metadata={"type": "Element"})
+    sub: list["Entry"] = field(default_factory=list, metadata={"type": "Element"})
+
+@dataclass
+class Root:
+    class Meta:
+        name = "root"
+        namespace = "urn:m"
+    entry: list[Entry] = field(default_factory=list, metadata={"type": "Element"})
+    x: list[object] = field(default_factory=list, metadata={"type": "Element"})
+    last: Optional[QName] = field(default=None, metadata={"type": "Element"})
+''', "root": "Root", "gen": "scoped"}
+
+XS_NS = "http://www.w3.org/2001/XMLSchema"
+XSI_TYPE_Q = "{http://www.w3.org/2001/XMLSchema-instance}type"
+SCOPE_URIS = ["urn:outer", "urn:inner", "urn:x", XS_NS, "urn:m"]
+
+
+def scoped_semantic(r):
+    """a document as a semantic tree: element = (local name, [(prefix name | None, uri)], values, children);
+    a QName value is (prefix name | None, local) and means whatever that prefix is bound to at its element"""
+    names = ["p", "q", "k"]
+
+    def value(scope):
+        keys = [k for k in scope if scope[k]] + ([None] if not scope.get(None) else [])
+        k = r.choice(keys)
+        return [k, r.choice(["a", "b", "c.d", "e-f"])]
+
+    def entry(scope, depth):
+        decls = []
+        sc = dict(scope)
+        if r.random() < 0.55:
+            k = r.choice([n for n in sc if n is not None] or names)       # re-bind a prefix that is in scope
+            u = r.choice([x for x in SCOPE_URIS if x != sc.get(k)])
+            decls.append([k, u])
+            sc[k] = u
+        if r.random() < 0.3:
+            k = r.choice(names)
+            if k not in [d[0] for d in decls]:
+                u = r.choice(SCOPE_URIS)
+                decls.append([k, u])
+                sc[k] = u
+        if r.random() < 0.25:
+            u = r.choice(["urn:m", "urn:inner", ""]) if sc.get(None) else r.choice(["urn:m", "urn:inner"])
+            decls.append([None, u])
+            sc[None] = u
+        subs = [entry(sc, depth + 1) for _ in range(r.choice([0, 0, 1, 2]) if depth < 2 else 0)]
+        return {"name": "entry", "decls": decls, "kind": value(sc) if r.random() < 0.7 else None,
+                "refs": [value(sc) for _ in range(r.choice([0, 1, 2]))], "subs": subs}
+
+    root_scope = {"p": "urn:outer", "t": XS_NS}
+    root_decls = [["p", "urn:outer"], ["t", XS_NS]]
+    if r.random() < 0.5:
+        root_decls.append([None, "urn:m"])
+        root_scope[None] = "urn:m"
+    entries = [entry(root_scope, 0) for _ in range(r.choice([1, 2, 3]))]
+    xs = [r.choice([["int", "17"], ["boolean", "1"], ["boolean", "0"], ["string", "s 1"], ["int", "0"]]) for _ in range(r.choice([0, 1, 2]))]
+    return {"decls": root_decls, "entries": entries, "xs": xs, "last": value(root_scope) if r.random() < 0.8 else None}
+
+
+def scoped_struct(sem, rename):
+    """spell the semantic tree; with rename=True every declared prefix gets a fresh name (declaration and uses
+    together): same meaning, other prefixes"""
+    counter = [0]
+
+    def alias(name):
+        if not rename:
+            return name
+        counter[0] += 1
+        return "n%d" % counter[0]
+
+    def spell(v, env):
+        return v[1] if v[0] is None else env[v[0]] + ":" + v[1]
+
+    def bind(decls, env):
+        env = dict(env)
+        out = []
+        for k, u in decls:
+            if k is None:
+                out.append([None, u])
+            else:
+                env[k] = alias(k)
+                out.append([env[k], u])
+        return out, env
+
+    def entry(e, env, tag):
+        decls, env = bind(e["decls"], env)
+        kids = [{"tag": "{urn:m}ref", "decls": [], "attrs": [], "text": spell(v, env), "kids": [], "tail": None} for v in e["refs"]]
+        kids += [entry(x, env, "{urn:m}sub") for x in e["subs"]]
+        return {"tag": tag, "decls": decls, "attrs": [["kind", spell(e["kind"], env)]] if e["kind"] else [], "text": None,
+                "kids": kids, "tail": None}
+
+    decls, env = bind(sem["decls"], {})
+    kids = [entry(e, env, "{urn:m}entry") for e in sem["entries"]]
+    kids += [{"tag": "{urn:m}x", "decls": [], "attrs": [[XSI_TYPE_Q, env["t"] + ":" + ty]], "text": val, "kids": [], "tail": None}
+             for ty, val in sem["xs"]]
+    if sem["last"]:
+        kids.append({"tag": "{urn:m}last", "decls": [], "attrs": [], "text": spell(sem["last"], env), "kids": [], "tail": None})
+    return {"tag": "{urn:m}root", "decls": decls, "attrs": [], "text": None, "kids": kids, "tail": None}
+
+
 # ------------------------------------------------------------------ structures
 def struct_of(e, parent_nsmap):
     own = [[p, u] for p, u in e.nsmap.items() if parent_nsmap.get(p) != u or p not in parent_nsmap]
@@ -350,11 +461,24 @@ def build(job):
         info["universe"] = model.ex.universe_term()
         info["nodefault"] = model.nodefault_term()
         info["root"] = cN(model.ex.cid[model.root])
-        docs = [(d, tuple(e.get("cfg", (True, False, False)))) for d in e["docs"]]
-        return random.Random(job["seed"]), model, info, docs
+        r = random.Random(job["seed"])
+        if e.get("gen") == "scoped":
+            docs = [(print_doc(r, scoped_struct(scoped_semantic(r), r.random() < 0.3)), (True, False, False)) for _ in range(job.get("n_docs", 6))]
+        else:
+            docs = [(d, tuple(e.get("cfg", (True, False, False)))) for d in e["docs"]]
+        return r, model, info, docs
     r, model, obj, info, data, base = IP.prepare(job)
     if data is None:
         return r, model, info, None
+    # below the models: declared encodings x source kinds; TreeSerializer against the writers
+    if job.get("extras", True):
+        xml = data.decode()
+        info["enc"] = [dict(x, doc=xml[:300]) for x in encoding_checks(model.ctx, model.root, xml) if x["why"]]
+        info["enc_n"] = 7 * 2 * 4
+        info["enc_nonascii"] = any(ord(ch) > 127 for ch in xml)
+        maps = [None, {"pp": "urn:a"}, {"qq": "urn:unused"}]
+        info["tree"] = [dict(t, ns_map=m) for m in maps for t in [tree_checks(model.ctx, obj, m)] if t]
+        info["tree_n"] = len(maps)
     return r, model, info, [(data, None)]
 
 
@@ -386,9 +510,129 @@ def chunk_job(job):
     return {"id": job["id"], "seed": job["seed"], "model": job["model"], "cases": [], "chunk": out}
 
 
+ENC_SRC = '''
+@dataclass
+class T:
+    a: Optional[str] = field(default=None, metadata={"type": "Attribute"})
+    t: list[str] = field(default_factory=list, metadata={"type": "Element"})
+'''
+ENC_DOCS = ['<T a="\u00e9\u20ac\u00df\u4e2d\U0001f600 &amp; &lt;"><t>na\u00efve caf\u00e9 \u20ac5 \u2014 \u4e2d</t><t>plain</t><t>\u00a0\u00ff\u0152</t></T>',
+            '<T a="ascii only"><t>\u00e9</t></T>']
+XML_DECL = __import__("re").compile(r"^\s*<\?xml[^>]*\?>\s*")
+
+
+def encodings_of(xml):
+    """the same document in several declared encodings (characters the encoding lacks become character references)"""
+    body = XML_DECL.sub("", xml)
+
+    def decl(enc):
+        return '<?xml version="1.0" encoding="%s"?>\n' % enc
+    return [("utf-8-declared", (decl("UTF-8") + body).encode("utf-8")),
+            ("utf-8-undeclared", body.encode("utf-8")),
+            ("utf-8-bom", b"\xef\xbb\xbf" + body.encode("utf-8")),
+            ("utf-16-bom", (decl("UTF-16") + body).encode("utf-16")),
+            ("iso-8859-1", (decl("ISO-8859-1") + body).encode("iso-8859-1", "xmlcharrefreplace")),
+            ("windows-1252", (decl("windows-1252") + body).encode("cp1252", "xmlcharrefreplace")),
+            ("us-ascii", (decl("US-ASCII") + body).encode("ascii", "xmlcharrefreplace"))]
+
+
+def encoding_checks(ctx, clazz, xml):
+    """source kinds x declared encodings x both handlers: the same object as the str source (plumbing into the
+    tokenisers: oracle only)"""
+    import pathlib
+    import shutil
+    import tempfile
+    import impl_binding_lib as B
+    from xsdata.formats.dataclass.parsers import XmlParser
+    out = []
+    try:
+        ref = XmlParser(context=ctx, handler=LxmlEventHandler).from_string(XML_DECL.sub("", xml), clazz)
+    except Exception as e:  # noqa
+        return [{"variant": "reference", "handler": "lxml", "source": "str", "why": type(e).__name__ + ": " + str(e)[:120]}]
+    tmpd = tempfile.mkdtemp(prefix="c08-enc-")
+    try:
+        for vname, data in encodings_of(xml):
+            path = os.path.join(tmpd, vname + ".xml")
+            with open(path, "wb") as f:
+                f.write(data)
+            for hname, h in (("native", XmlEventHandler), ("lxml", LxmlEventHandler)):
+                def P():
+                    return XmlParser(context=ctx, handler=h)
+                for sname, fn in (("bytes", lambda: P().from_bytes(data, clazz)), ("fileobj", lambda: P().parse(io.BytesIO(data), clazz)),
+                                  ("path", lambda: P().from_path(pathlib.Path(path), clazz)), ("strpath", lambda: P().parse(path, clazz))):
+                    try:
+                        d = B.eq(ref, fn())
+                        why = None if d is None else "differs at " + d
+                    except Exception as e:  # noqa
+                        why = type(e).__name__ + ": " + str(e)[:120]
+                    out.append({"variant": vname, "handler": hname, "source": sname, "why": why})
+    finally:
+        shutil.rmtree(tmpd, ignore_errors=True)
+    return out
+
+
+def nsmaps_of(root):
+    return [[e.tag, sorted((p or "", u) for p, u in e.nsmap.items())] for e in root.iter() if isinstance(e.tag, str)]
+
+
+def tree_checks(ctx, obj, ns_map=None):
+    """TreeSerializer against both text writers: same in-scope namespace bindings at every element as the document
+    of the lxml writer (same sink), and the tree reads back as the same object as both documents"""
+    import impl_binding_lib as B
+    from xsdata.formats.dataclass.parsers import XmlParser
+    from xsdata.formats.dataclass.serializers import TreeSerializer, XmlSerializer
+    from xsdata.formats.dataclass.serializers.writers import LxmlEventWriter, XmlEventWriter
+    res = {}
+    try:
+        tree = TreeSerializer(context=ctx).render(obj, ns_map=dict(ns_map) if ns_map else None)
+        lx = XmlSerializer(context=ctx, writer=LxmlEventWriter).render(obj, ns_map=dict(ns_map) if ns_map else None)
+        nat = XmlSerializer(context=ctx, writer=XmlEventWriter).render(obj, ns_map=dict(ns_map) if ns_map else None)
+    except Exception as e:  # noqa
+        return {"render_exc": type(e).__name__ + ": " + str(e)[:150]}
+    troot = tree.getroot() if hasattr(tree, "getroot") else tree
+    a, b = nsmaps_of(troot), nsmaps_of(LET.fromstring(lx.encode()))
+    if a != b:
+        k = next((i for i, (x, y) in enumerate(zip(a, b)) if x != y), min(len(a), len(b)))
+        res["nsmaps_differ"] = {"at": k, "tree": a[k] if k < len(a) else None, "lxml_writer": b[k] if k < len(b) else None}
+    tree_bytes = LET.tostring(troot)          # before parsing: the lxml handler clears the elements it has read
+    back = {}
+    for name, fn in (("tree_text", lambda: XmlParser(context=ctx, handler=LxmlEventHandler).from_bytes(tree_bytes, type(obj))),
+                     ("tree", lambda: XmlParser(context=ctx, handler=LxmlEventHandler).parse(tree, type(obj))),
+                     ("lxml_writer", lambda: XmlParser(context=ctx, handler=LxmlEventHandler).from_string(lx, type(obj))),
+                     ("native_writer", lambda: XmlParser(context=ctx, handler=LxmlEventHandler).from_string(nat, type(obj)))):
+        try:
+            back[name] = ("ok", fn())
+        except Exception as e:  # noqa
+            back[name] = ("exc", type(e).__name__)
+    ref = back["lxml_writer"]
+    for name in ("tree", "tree_text", "native_writer"):
+        v = back[name]
+        if v[0] != ref[0] or (v[0] == "exc" and v[1] != ref[1]):
+            res.setdefault("parse_differs", {})[name] = f"{v[0]} {v[1] if v[0] == 'exc' else ''} vs {ref[0]} {ref[1] if ref[0] == 'exc' else ''}"
+        elif v[0] == "ok":
+            d = B.eq(ref[1], v[1])
+            if d is not None:
+                res.setdefault("parse_differs", {})[name] = "differs at " + d
+    if res:
+        res["lxml_writer_xml"] = lx[:1500]
+        res["tree_xml"] = tree_bytes.decode()[:1500]
+    return res
+
+
+def enc_job(job):
+    model = IP.Model(IP.full_source(ENC_SRC), "T")
+    out = []
+    for d in ENC_DOCS:
+        out += [dict(x, doc=d[:200]) for x in encoding_checks(model.ctx, model.root, d)]
+    model.close()
+    return {"id": job["id"], "seed": job["seed"], "model": job["model"], "cases": [], "enc": out}
+
+
 def run_job(job):
     if "chunk" in job["model"]:
         return chunk_job(job)
+    if "enc" in job["model"]:
+        return enc_job(job)
     r, model, info, docs = build(job)
     cases = []
     if docs is None:
